@@ -15,6 +15,7 @@ import GluonModel.Proofs.StdList
 import GluonModel.Proofs.StdString
 import GluonModel.Proofs.StdDerive
 import GluonModel.Proofs.StdJson
+import GluonModel.Proofs.StdJsonText
 
 namespace GluonModel.Props.C19
 open GluonModel
@@ -261,5 +262,80 @@ example : de id (.arr (.opt .int)) (ser (.arr (.opt .int)) ([some (1 : Int), non
     some ([some (1 : Int), none, some (-3)] : List (Option Int)) := rfl
 example : Representable (.arr (.opt .int)) := by simp [Representable]
 end json
+
+/-! ## The JSON text layer (`std.json.prim.serialize` / `deserialize`: serde_json + the std.map marshalling)
+
+Model: `GluonModel.StdJsonText` (what is Gluon code and what is Rust is said there). `T` = what a JSON text
+denotes (objects as entry lists), `JVal` = `std.json.Value` (objects as `std.map` trees), `pr`/`parse` = the
+serde_json printer / parser, `toT`/`fromT` = the marshalling (`from_gluon_map` + `BTreeMap`,
+`BTreeMap` + `to_gluon_map`), `ser = pr ∘ toT`, `de = fromT ∘ parse`.
+`Good 128 t`: no float inside `t`, every integer within `i64`, fewer than 128 nested arrays/objects
+(serde_json's recursion limit, which the real `de` has). -/
+section jsontext
+open StdJsonText StdMap
+
+/-- Parsing a printed value gives the value back and consumes the whole text – for EVERY float-free value
+    (all strings over all Unicode scalar values, all `i64`, arbitrary entry lists incl. duplicate and
+    unsorted keys, nesting up to the recursion limit of the parser). No fuel in the statement: `parse` is
+    the function the driver runs. -/
+theorem json_parse_print (t : T) (h : Good 128 t) : parse (pr t) = .ok (t, []) :=
+  parse_pr t h
+
+example : Good 128 (.arr [.int (-9223372036854775808), .str ['a', '"', Char.ofNat 1, 'é'],
+    .obj [(['k'], .null), (['k'], .bool true), ([], .arr [])]]) := by
+  simp [Good, GoodL, GoodE]
+
+/-- Corollary: the printer is injective on float-free values (no two values share a text). -/
+theorem json_print_injective {t₁ t₂ : T} (h₁ : Good 128 t₁) (h₂ : Good 128 t₂)
+    (h : pr t₁ = pr t₂) : t₁ = t₂ :=
+  pr_injective h₁ h₂ h
+
+example : pr (.str ['1']) ≠ pr (.int 1) := by
+  intro h
+  have := json_print_injective (t₁ := .str ['1']) (t₂ := .int 1) (by simp [Good]) (by simp [Good]) h
+  cases this
+
+/-- gluon's `Ord String` (`str::cmp`, code-point order) obeys the laws `std.map` needs. -/
+theorem json_key_order_lawful : LawfulCmp scmp := scmp_lawful
+
+/-- **The keys of an object are written in the in-order traversal of its `std.map` tree – every entry
+    exactly once** (left subtree, node, right subtree), for every search tree (which is what
+    `std.map.insert` builds, `insert_ordered`). This is the statement a marshalling that skips the left
+    subtrees breaks. -/
+theorem json_object_keys_inorder {m : Map Str JVal} (h : Ordered scmp m) :
+    toT (.obj m) = .obj ((toList m).map (fun kv => (kv.1, toT kv.2))) :=
+  toT_obj_ordered h
+
+/-- … hence the text of an object is `{` + its in-order entries + `}`. -/
+theorem json_object_text_inorder {m : Map Str JVal} (h : Ordered scmp m) :
+    ser (.obj m) = '{' :: prMembers true ((toList m).map (fun kv => (kv.1, toT kv.2))) := by
+  rw [ser, json_object_keys_inorder h, pr]
+
+/-- a tree with a left child (key `"a"` inserted after `"b"`) -/
+example : Ordered scmp (.bin ['b'] (JVal.bool true) (.bin ['a'] .null .tip .tip) .tip) := by
+  simp [Ordered, All, scmp]
+example : ser (.obj (.bin ['b'] (.bool true) (.bin ['a'] .null .tip .tip) .tip))
+    = ['{', '"', 'a', '"', ':', 'n', 'u', 'l', 'l', ',', '"', 'b', '"', ':', 't', 'r', 'u', 'e', '}'] := by
+  rfl
+
+/-- `de (ser v)` succeeds for every float-free value and returns `fromT (toT v)`: the same entries, each
+    object rebuilt by `std.map.insert` in ascending key order (a right spine).
+    PARTIAL: the full statement adds `toT (fromT (toT v)) = toT v` (the value that comes back has the same
+    content: same keys, same values, recursively) and `fromT (toT v) = v` when every object of `v` already
+    is such a right spine; both are checked only by the correspondence/oracle so far. `de (ser v) = v` itself
+    is FALSE in general for the real code: the tree shape is not preserved (see the example below), and
+    the derived structural `Eq (Map k a)` can tell. -/
+theorem json_de_ser_value_partial (v : JVal) (h : Good 128 (toT v)) :
+    de (ser v) = .ok (fromT (toT v)) := by
+  rw [de, ser, json_parse_print _ h]
+
+example : Good 128 (toT (.obj (.bin ['b'] (.bool true) (.bin ['a'] .null .tip .tip) .tip))) := by
+  simp [toT, toTM, insertSorted, scmp, Good, GoodE]
+/-- the left spine comes back as a right spine -/
+example : fromT (toT (.obj (.bin ['b'] (.bool true) (.bin ['a'] .null .tip .tip) .tip)))
+    = .obj (.bin ['a'] .null .tip (.bin ['b'] (.bool true) .tip .tip)) := by
+  rfl
+
+end jsontext
 
 end GluonModel.Props.C19
